@@ -329,6 +329,12 @@ class BehavioralRTLIRToVVisitorL1( bir.BehavioralRTLIRNodeVisitor ):
       return value
 
     template = "{{ {{ {padded_nbits} {{ {value}[{last_bit}] }} }}, {value} }}"
+
+    # The text of a compound expression cannot be indexed (`a + b[3]` selects
+    # a bit of b): its sign bit is set iff its value is >= 2**last_bit.
+    if isinstance( node.value, ( bir.IfExp, bir.UnaryOp, bir.BinOp, bir.Compare ) ):
+      sign_bit = f"( {value} ) >= {current_nbits}'d{2**last_bit}"
+      return f"{{ {{ {padded_nbits} {{ {sign_bit} }} }}, {value} }}"
     one_bit_template = "{{ {{ {padded_nbits} {{ {_value} }} }}, {value} }}"
 
     # Check if the signal to be extended is a bit selection or one-bit part
